@@ -133,18 +133,20 @@ inductive HasType (Γ : Ctx) : Env → Ast → ExprTy → Prop where
       Blocks Γ Δ blocks Δ' → HasType Γ Δ' value (.ty t) →
       HasType Γ Δ (.node .NT_IMPERATIVE_EXPR d lo hi (value :: blocks)) (.ty (.coll t))
   /-- `R{p := init | step}`: the variable's type `τ` is a fixed point of typing `step`, reached
-  from the type of the first step, which must be compatible with the type of `init` -/
-  | recShort {Δ Δ0 Δτ : Env} {d : TokData} {lo hi : Int} {p init step : Ast} {t0 t1 τ : Ty} :
+  from the type of the first step, which must be compatible with the type of `init`; the value may
+  be the initial one, so the type of the expression joins `τ` with the type of `init` -/
+  | recShort {Δ Δ0 Δτ : Env} {d : TokData} {lo hi : Int} {p init step : Ast} {t0 t1 τ m : Ty} :
       HasType Γ Δ init (.ty t0) → Binds Δ p t0 Δ0 → HasType Γ Δ0 step (.ty t1) →
       compat Γ.traits t1 t0 = true → StepReach Γ Δ p step t1 τ →
-      Binds Δ p τ Δτ → HasType Γ Δτ step (.ty τ) →
-      HasType Γ Δ (.node .NT_RECURSIVE_SHORT d lo hi [p, init, step]) (.ty τ)
+      Binds Δ p τ Δτ → HasType Γ Δτ step (.ty τ) → merge Γ.traits τ t0 = some m →
+      HasType Γ Δ (.node .NT_RECURSIVE_SHORT d lo hi [p, init, step]) (.ty m)
   /-- `R{p := init | cond | step}` -/
-  | recFull {Δ Δ0 Δτ : Env} {d : TokData} {lo hi : Int} {p init cond step : Ast} {t0 t1 τ : Ty} :
+  | recFull {Δ Δ0 Δτ : Env} {d : TokData} {lo hi : Int} {p init cond step : Ast} {t0 t1 τ m : Ty} :
       HasType Γ Δ init (.ty t0) → Binds Δ p t0 Δ0 → HasType Γ Δ0 step (.ty t1) →
       compat Γ.traits t1 t0 = true → StepReach Γ Δ p step t1 τ →
       Binds Δ p τ Δτ → HasType Γ Δτ step (.ty τ) → HasType Γ Δτ cond .logic →
-      HasType Γ Δ (.node .NT_RECURSIVE_FULL d lo hi [p, init, cond, step]) (.ty τ)
+      merge Γ.traits τ t0 = some m →
+      HasType Γ Δ (.node .NT_RECURSIVE_FULL d lo hi [p, init, cond, step]) (.ty m)
   /-- `A × B × …` -/
   | decart {Δ : Env} {d : TokData} {lo hi : Int} {a b : Ast} {ks : List Ast} {es : List Ty} :
       HasSets Γ Δ (a :: b :: ks) es →
